@@ -84,7 +84,7 @@ Definition size (a : alloc) : Z := Z.of_nat (length (slist a)).
 Definition used (a : alloc) : result Z :=
   match storage a with
   | None => Panic PHibUse
-  | Some s => Ok (Z.of_nat (length s) - Z.of_nat (length (glist a)))
+  | Some s => Ok (Z.of_nat (length s) - Z.of_nat (length (glist a)))%Z
   end.
 
 (* Clone(): what is copied is the threshold, the storage and the gap set; the hibernation fields
